@@ -1,6 +1,6 @@
 SPECIFICATION Spec
 CONSTANTS
-  MaxStmts = 4
+  MaxStmts = 3
   MaxDepth = 3
   MaxUnits = 1
   MaxVar = 30
@@ -22,7 +22,7 @@ CONSTANTS
   InsSet <- InsSmall
   MinEdits = 0
   Randomised = FALSE
-  DumpMod = 19
+  DumpMod = 40
   NRepl = 17
   RichOnly = TRUE
   NeedStruct = FALSE
